@@ -175,10 +175,26 @@ fn waveform(out: &mut Out, r: &mut Rng, tapes: u64) {
                 }
             }
         }
+        // another third of the listeners press PLAY again while the tape is playing (in a pilot, inside a block, in a
+        // pause): it goes on playing
+        let mut again: Vec<u64> = if ti % 3 == 1 {
+            let total: u64 = blocks.iter().map(|b| 8063 * 2168 + 16 * 1710 * b.len() as u64 + 3_500_000).sum();
+            (0..4).map(|_| r.below(total.max(1))).collect()
+        } else {
+            vec![]
+        };
+        again.sort();
+        let mut t = 0u64;
         let mut guard = 0u64;
         while !d.stopped() && !d.failed {
             let c = pol.next(r) as usize;
             d.adv(c, out);
+            t += c as u64;
+            while !again.is_empty() && again[0] <= t && !d.stopped() {
+                again.remove(0);
+                out.ev(json!({"ev":"play","was_stopped":false}));
+                d.tap.play();
+            }
             guard += 1;
             if guard >= 200_000_000 {
                 d.fail(out, "tape never ends".into());
@@ -329,12 +345,19 @@ fn ld_request(emu: &mut Emu, rq: &Req, prefill: Option<&[u8]>, max_frames: usize
     // the caller: CALL 0x0556 in the printer buffer; the routine always leaves through SA/LD-RET,
     // which returns here with AF, IX and DE as LD-BYTES left them
     poke_bytes(emu, CALLER, &[0xCD, 0x56, 0x05]);
-    let (done, frames_taken) = run_to_count(emu, CALLER + 3, max_frames);
+    // a third of the requests run under a debugger with breakpoints inside the ROM routine (its entry, the address the
+    // fast-load trap watches, the edge loop, the exit) from which the host just resumes
+    let via: Vec<u16> = if r.chance(1, 3) {
+        [0x0556u16, 0x056B, 0x056C, 0x05E3, 0x053F, 0x0554].iter().copied().filter(|_| r.chance(1, 2)).collect()
+    } else {
+        vec![]
+    };
+    let (done, frames_taken, stops) = run_to_count_via(emu, CALLER + 3, max_frames, &via);
     let after: Vec<u8> = (0..span).map(|k| emu.peek(base.wrapping_add(k as u16))).collect();
     let cpu = emu.verif_cpu();
     json!({"ev":"ldbytes","req":{"a":rq.a,"carry":rq.carry as u8,"ix":rq.ix,"de":rq.de},
            "done":done,"carry":cpu.regs.get_flags() & 1,"ix":cpu.regs.get_ix(),"de":cpu.regs.get_de(),
-           "pc":cpu.regs.get_pc(),"base":base,"before":before,"after":after,"trapdiff":[],"frames":frames_taken,"playing":false,"fast_off":false})
+           "pc":cpu.regs.get_pc(),"base":base,"before":before,"after":after,"trapdiff":[],"frames":frames_taken,"playing":false,"fast_off":false,"via":via,"stops":stops})
 }
 
 fn random_blocks_for_loader(r: &mut Rng) -> Vec<Vec<u8>> {
